@@ -196,7 +196,9 @@ Definition meta_consts (ps : primeset) : list (list Z) :=
 Definition npar (ps : list Z) (i : nat) : Z := nth i ps 0.
 Definition nvec (vs : list (list Z)) (i : nat) : list Z := nth i vs [].
 
-(* header: be pset [extra]; be = 3 reference functions, 4 = the NTT120Avx trait implementations (Primes30 only) *)
+(* header: be pset (rest of the header is zero padding: C07Run evaluates its own header fields eagerly once extracted, so every
+   large argument travels in the vectors: the mask of 7102 is vs[1][0]);
+   be = 3 reference functions, 4 / 5 = the NTT120Avx / NTT120Ref trait implementations (Primes30 only) *)
 Definition run_c07_ntt (code : Z) (ps : list Z) (vs : list (list Z)) : option (list (list Z)) :=
   match pset (npar ps 1) with
   | None => None
@@ -205,7 +207,7 @@ Definition run_c07_ntt (code : Z) (ps : list Z) (vs : list (list Z)) : option (l
     match code with
     | 7100 => Some (meta_consts P)
     | 7101 => Some [flat_map (b_from_znx64 P) x]
-    | 7102 => Some [flat_map (b_from_znx64_masked P (npar ps 2)) x]
+    | 7102 => Some [flat_map (b_from_znx64_masked P (nz y 0)) x]
     | 7103 => Some [flat_map (c_from_znx64 P) x]
     | 7104 => Some [concat (map (c_from_b P) (chunk 4 x))]
     | 7105 => Some [map (b_to_znx128 P) (chunk 4 x)]
@@ -251,7 +253,7 @@ Definition oracle_c07_ntt (code : Z) (ps : list Z) (vs outs : list (list Z)) : Z
     | 7101 => (* every residue is a u64 congruent to the coefficient *)
         b2z (allb (fun pr => allb (fun k => is_u64 (nz (snd pr) k) && congb (qk P k) (nz (snd pr) k) (fst pr)) ks)
                   (combine x (chunk 4 o)))
-    | 7102 => b2z (allb (fun pr => allb (fun k => is_u64 (nz (snd pr) k) && congb (qk P k) (nz (snd pr) k) (Z.land (fst pr) (npar ps 2))) ks)
+    | 7102 => b2z (allb (fun pr => allb (fun k => is_u64 (nz (snd pr) k) && congb (qk P k) (nz (snd pr) k) (Z.land (fst pr) (nz y 0))) ks)
                   (combine x (chunk 4 o)))
     | 7103 => b2z (allb (fun pr => allb (fun k =>
                   let r := nz (snd pr) (2 * k) in let r' := nz (snd pr) (2 * k + 1) in
